@@ -22,6 +22,11 @@ use vp_net::wire;
 #[derive(Clone, Debug, PartialEq)]
 enum Op {
     Send(usize, bool),
+    /// the same calls while the environment refuses the first datagram they try to send
+    /// (send error reported to the caller, datagram lost)
+    SendRefused(usize, bool),
+    FlushRefused,
+    TickRefused(u64),
     Flush,
     Tick(u64),
     PeerRequestsResend,
@@ -40,6 +45,12 @@ fn ops() -> Vec<Op> {
         v.push(Op::Send(l, true));
         v.push(Op::Send(l, false));
     }
+    for &l in &[1usize, 1000, 1023] {
+        v.push(Op::SendRefused(l, true));
+        v.push(Op::SendRefused(l, false));
+    }
+    v.push(Op::FlushRefused);
+    v.push(Op::TickRefused(1_000_000));
     v.push(Op::Flush);
     v.push(Op::Tick(500_000));
     v.push(Op::Tick(1_000_000));
@@ -176,7 +187,10 @@ fn run_sequence<E: Ep>(run: &Arc<Run>, base: &Pair<E>, seq: &[&Op]) -> Result<St
                 return Ok("skip:after-disconnect".into());
             }
             match op {
-                Op::Send(len, vital) => {
+                Op::Send(len, vital) | Op::SendRefused(len, vital) => {
+                    if let Op::SendRefused(..) = op {
+                        p.fail_next[0] = 1;
+                    }
                     let serial = if *vital { w.vital.len() } else { w.nonvital.len() };
                     let data = content(serial, *vital, *len);
                     let ok = p.with(0, |e, cb| e.send(cb, &data, *vital));
@@ -192,11 +206,17 @@ fn run_sequence<E: Ep>(run: &Arc<Run>, base: &Pair<E>, seq: &[&Op]) -> Result<St
                         class.push('R');
                     }
                 }
-                Op::Flush => {
+                Op::Flush | Op::FlushRefused => {
+                    if let Op::FlushRefused = op {
+                        p.fail_next[0] = 1;
+                    }
                     p.with(0, |e, cb| e.flush(cb));
                     class.push('f');
                 }
-                Op::Tick(us) => {
+                Op::Tick(us) | Op::TickRefused(us) => {
+                    if let Op::TickRefused(_) = op {
+                        p.fail_next[0] = 1;
+                    }
                     p.advance(*us);
                     p.with(0, |e, cb| e.tick(cb));
                     class.push('t');
@@ -265,7 +285,7 @@ fn run_sequence<E: Ep>(run: &Arc<Run>, base: &Pair<E>, seq: &[&Op]) -> Result<St
             }
             class.push_str("+u");
         }
-        Ok(format!("{}:dgrams{}:comp{}", class, w.datagrams.min(3), (w.compressed > 0) as u8))
+        Ok(format!("{}:dgrams{}:comp{}:send-errors{}", class, w.datagrams.min(3), (w.compressed > 0) as u8, p.errors[0].min(2)))
     });
     match r {
         Ok(x) => x,
